@@ -289,7 +289,7 @@ fn producers_strategy(p: &Profile) -> BoxedStrategy<Vec<Vec<POp>>> {
     if p.streams.1 == 0 {
         return Just(vec![]).boxed();
     }
-    let pop = prop_oneof![2 => Just(POp::Yield), 4 => (1u8..=4).prop_map(|n| POp::Push { n }), 3 => Just(POp::PushDuring), 1 => Just(POp::Close)];
+    let pop = prop_oneof![4 => Just(POp::Yield), 8 => (1u8..=4).prop_map(|n| POp::Push { n }), 1 => (33u8..=36).prop_map(|n| POp::Push { n }), 6 => Just(POp::PushDuring), 2 => Just(POp::Close)];
     vec(vec(pop, 0..=5), p.streams.1 as usize).boxed()
 }
 
@@ -304,9 +304,14 @@ fn lifecycle(p: &Profile) -> BoxedStrategy<Vec<Op>> {
     let kind = union(vec![(w.futdesync.max(1), Just(0u8).boxed()), (w.futsync, Just(1u8).boxed()), (w.after, Just(2u8).boxed())]);
     let mid = (0u8..11, small_plain.clone()).boxed();
     let term = prop_oneof![4 => Just(0u8), 3 => Just(1u8), 2 => Just(2u8), 1 => Just(3u8), 1 => Just(4u8), 2 => Just(5u8)];
-    ((u8s, u8s, u8s), kind, (small_fut.clone(), small_fut, small_plain), vec(mid, 0..=4), term)
-        .prop_map(|((o, slot, g), kind, (pre, post, plain), mids, term)| {
+    // (one in ten lifecycles starts behind a backlog of plain operations that is just longer than a plausible batch size)
+    let backlog = prop_oneof![27 => Just(0usize), 1 => 33usize..=36, 1 => 65usize..=68, 1 => 130usize..=133];
+    ((u8s, u8s, u8s), kind, (small_fut.clone(), small_fut, small_plain), vec(mid, 0..=4), term, backlog)
+        .prop_map(|((o, slot, g), kind, (pre, post, plain), mids, term, backlog)| {
             let mut out = vec![];
+            for _ in 0..backlog {
+                out.push(Op::Desync { o, body: vec![], id: 0 });
+            }
             let mut body = pre;
             body.push(Step::AwaitGate { g });
             body.extend(post);
@@ -347,7 +352,7 @@ pub fn phase_strategy(p: &Profile) -> BoxedStrategy<Phase> {
     let program = if p.lifecycle_pct > 0 && w.pollonce > 0 && w.futdesync + w.futsync + w.after > 0 {
         let segment = union(vec![(100 - p.lifecycle_pct.min(99), op_strategy(p).prop_map(|op| vec![op]).boxed()), (p.lifecycle_pct, lifecycle(p))]);
         let max = p.ops.1;
-        vec(segment, p.ops.0..=p.ops.1).prop_map(move |segs| { let mut v: Vec<Op> = segs.into_iter().flatten().collect(); v.truncate(max + 6); v }).boxed()
+        vec(segment, p.ops.0..=p.ops.1).prop_map(move |segs| { let long = segs.iter().any(|s| s.len() > 12); let mut v: Vec<Op> = segs.into_iter().flatten().collect(); if !long { v.truncate(max + 6); } v }).boxed()
     } else {
         vec(op_strategy(p), p.ops.0..=p.ops.1).boxed()
     };
